@@ -222,10 +222,18 @@ func runC12(src sim.Source, o Opts) *Result {
 						if a, b := world.FmtParams(world.CollectParams(cc)), world.FmtParams(world.CollectParams(c)); a != b || cc.Pattern() != c.Pattern() || cc.Scope() != c.Scope() {
 							fail("request %s: CloneWith differs from its origin: params [%s] vs [%s]", tok, a, b)
 						}
-						s.Yield(sim.PtHeld)
-						if ot := otherTokens(world.FmtParams(world.CollectParams(cc))+cc.Pattern(), tok); len(ot) > 0 {
-							fail("request %s: the CloneWith context shows data of %v after a yield", tok, ot)
+						check := func(when string) {
+							fp := ctxFingerprint(cc)
+							if ot := otherTokens(fp, tok); len(ot) > 0 {
+								fail("request %s: the CloneWith context shows data of %v %s: %s", tok, ot, when, fp)
+							}
+							if cc.QueryParam("tok") != tok || cc.QueryParams().Get("tok") != tok || cc.Header("X-Token") != tok || cc.Path() != path {
+								fail("request %s: the CloneWith context does not show the request it was given %s: %s", tok, when, fp)
+							}
 						}
+						check("right after CloneWith")
+						s.Yield(sim.PtHeld)
+						check("after a yield")
 						cc.Close()
 					}
 					if sv.Kind == model.KRoute {
